@@ -471,10 +471,12 @@ ADigest(e) ==
                       /\ e.bitmaps[k].bm \in DOMAIN bms
                       /\ \/ bms[e.bitmaps[k].bm].digest # e.bitmaps[k].d
                          \/ bms[e.bitmaps[k].bm].docs # {e.bitmaps[k].docs[j] : j \in DOMAIN e.bitmaps[k].docs}
+        \* results the caller kept (the slice Fields() returned, the tables DocumentNumbers() returned) still read the same
+        keptBad == \E k \in DOMAIN e.retained : ~e.retained[k].same
         hs == {e.segs[k].seg : k \in DOMAIN e.segs}
         dOf(h) == e.segs[CHOOSE k \in DOMAIN e.segs : e.segs[k].seg = h].d
     IN /\ digs' = [h \in DOMAIN digs \cup hs |-> IF h \in DOMAIN digs THEN digs[h] ELSE dOf(h)]
-       /\ obs' = Obs("digest", {"C15"}, IF segBad \/ bmBad THEN {"C15"} ELSE {}, digs, e)
+       /\ obs' = Obs("digest", {"C15"}, IF segBad \/ bmBad \/ keptBad THEN {"C15"} ELSE {}, digs, e)
        /\ UNCHANGED <<segs, files, pls, its, dvrs, bms, built>>
 
 \* C17: segments that Level A cannot tell apart must be observationally identical
